@@ -44,6 +44,44 @@ def handler_of(prog: Program, ci: ClassInfo) -> FuncInfo:
     return cands[0]
 
 
+def _strip_not(e: ast.expr) -> ast.expr:
+    while isinstance(e, ast.UnaryOp) and isinstance(e.op, ast.Not):
+        e = e.operand
+    return e
+
+
+def late_bound_closures(prog: Program, ci: ClassInfo) -> List[Tuple[FuncInfo, ast.AST, str]]:
+    """Lambdas / nested functions created inside a loop that read the loop variable when CALLED (late binding): every
+    closure created by the loop ends up using the value of the last iteration."""
+    out = []
+    for m in ci.methods.values():
+        for loop in [x for x in walk_own(m.node) if isinstance(x, (ast.For, ast.AsyncFor))]:
+            targets = {y.id for y in ast.walk(loop.target) if isinstance(y, ast.Name)}
+            # variables assigned in the loop body are rebound every iteration as well
+            for st in loop.body:
+                for y in ast.walk(st):
+                    if isinstance(y, ast.Name) and isinstance(y.ctx, ast.Store):
+                        targets.add(y.id)
+            for st in loop.body:
+                for y in ast.walk(st):
+                    if isinstance(y, ast.Lambda):
+                        bound = {a.arg for a in y.args.args + y.args.kwonlyargs} | ({y.args.vararg.arg} if y.args.vararg else set()) | \
+                            ({y.args.kwarg.arg} if y.args.kwarg else set())
+                        free = {z.id for z in ast.walk(y.body) if isinstance(z, ast.Name) and isinstance(z.ctx, ast.Load)} - bound
+                        # default-argument capture (lambda d=dispatcher: …) is early binding and fine
+                        hit = sorted(free & targets)
+                        if hit:
+                            out.append((m, y, ', '.join(hit)))
+                    elif isinstance(y, (ast.FunctionDef, ast.AsyncFunctionDef)) and y is not m.node:
+                        bound = {a.arg for a in y.args.args + y.args.kwonlyargs}
+                        stores = {z.id for z in ast.walk(y) if isinstance(z, ast.Name) and isinstance(z.ctx, ast.Store)}
+                        free = {z.id for b_ in y.body for z in ast.walk(b_) if isinstance(z, ast.Name) and isinstance(z.ctx, ast.Load)} - bound - stores
+                        hit = sorted(free & targets)
+                        if hit:
+                            out.append((m, y, ', '.join(hit)))
+    return out
+
+
 def request_accessor(e: ast.expr, fw: str) -> Optional[str]:
     """`<request object>.<attr>` -> attr"""
     if isinstance(e, ast.Attribute):
@@ -99,6 +137,14 @@ def integration_facts(prog: Program, fw: str, ci: ClassInfo) -> Tuple[Dict[str, 
             if not table_ok or not refuse_when_not_in:
                 problems.append(('GATE-MEDIA', 'gate does not test membership in REQUEST_CONTENT_TYPES', c.line,
                                  f'{fw}: `{norm(cond)}` must refuse exactly the media types outside pjrpc.common.REQUEST_CONTENT_TYPES'))
+        elif isinstance(_strip_not(cond), ast.Call) and isinstance(_strip_not(cond).func, ast.Attribute) and \
+                _strip_not(cond).func.attr in ('startswith', 'endswith', 'find', 'index', '__contains__'):
+            call = _strip_not(cond)
+            facts['gate'] = f'{call.func.attr}() test'
+            problems.append(('GATE-MEDIA', f'gate is a {call.func.attr}() test', c.line,
+                             f'{fw}: `{norm(cond)}` accepts every media type that merely {call.func.attr} one of the documented types '
+                             f'(application/json-patch+json, application/json5, application/json-rpc2, …): such requests are dispatched and '
+                             f'executed instead of being refused with 415; the gate must be exact membership in REQUEST_CONTENT_TYPES'))
         else:
             ckd = classify_cond(prog, f, cond)
             acc = (ckd.subject or '').rsplit('.', 1)[-1]
@@ -215,6 +261,14 @@ def run(ck: Check, prog: Program) -> None:
             ck.ob(rule, f'{fw}: {rule}', not bad, sample={'facts': facts} if rule == 'GATE-MEDIA' else None)
         for rule, construct, line, msg in problems:
             ck.finding(rule, h.qualname, construct, h.module.rel, line, msg)
+        # ROUTE-BIND: each registered route is bound to its own endpoint's dispatcher at registration time
+        lb = late_bound_closures(prog, ci)
+        ck.ob('ROUTE-BIND', f'{fw}: handlers registered in a loop capture their endpoint\'s dispatcher by value (partial / default argument)', not lb)
+        for m, node, names in lb:
+            ck.finding('ROUTE-BIND', m.qualname, f'closure over loop variable {names}', m.module.rel, node.lineno,
+                       f'`{norm(node)[:90]}` is created inside a loop and reads the loop variable(s) {names} only when it is called: every '
+                       f'route registered by the loop ends up with the LAST endpoint\'s dispatcher, so a request to one endpoint is answered '
+                       f'by another endpoint\'s dispatcher (functools.partial(..., dispatcher=dispatcher) binds the value)')
         # GATE-ANSWER
         if wsgi is not None:
             w = ci.methods.get(wsgi)
